@@ -87,11 +87,21 @@ func vpH_c14_payload() {
 	w1, w2 := mk(), mk()
 	top := 21
 	if vpParam("verifyside") != 0 {
-		top = 23 // the config pairs and case variants do not depend on map orders: fixed-order configuration only
+		top = 26 // the config pairs, case variants, matrix extras and nil/empty inside a matrix do not depend on map orders: fixed-order configuration only
 	}
 	kind := vpInt(0, top)
-	collide := kind <= 3
+	collide := kind <= 3 || kind == 26
 	switch kind {
+	case 26: // nil versus empty containers inside a matrix
+		w1.step.Matrix = &pipeline.Matrix{Setup: pipeline.MatrixSetup{"os": {"m"}}}
+		w2.step.Matrix = &pipeline.Matrix{Setup: pipeline.MatrixSetup{"os": {"m"}}, Adjustments: pipeline.MatrixAdjustments{}, RemainingFields: map[string]any{}}
+	case 24: // an unknown matrix-level key next to the anonymous dimension is signed content
+		w1.step.Matrix = &pipeline.Matrix{Setup: pipeline.MatrixSetup{"": {"m"}}, RemainingFields: map[string]any{"limit": x}}
+		w2.step.Matrix = &pipeline.Matrix{Setup: pipeline.MatrixSetup{"": {"m"}}}
+	case 25: // ... and so is its value
+		vpAssume(x != c)
+		w1.step.Matrix = &pipeline.Matrix{Setup: pipeline.MatrixSetup{"": {"m"}}, RemainingFields: map[string]any{"limit": x}}
+		w2.step.Matrix = &pipeline.Matrix{Setup: pipeline.MatrixSetup{"": {"m"}}, RemainingFields: map[string]any{"limit": c}}
 	case 23: // a pipeline variable whose name differs from a step variable only in letter case is its own variable
 		vpAssume(x != pv)
 		w1.penv = map[string]string{"a": pv}
